@@ -128,7 +128,7 @@ func (p *Parser) Next() (GrammarType, []byte) {
 	if p.needComma && c != '}' && c != ']' && c != 0 {
 		p.err = parse.NewErrorLexer(p.r, "expected comma character or an array or object ending")
 		return ErrorGrammar, nil
-	} else if c == '{' {
+	} else if c == '{' && state != ObjectKeyState {
 		p.state = append(p.state, ObjectKeyState)
 		p.r.Move(1)
 		return StartObjectGrammar, p.r.Shift()
@@ -144,7 +144,7 @@ func (p *Parser) Next() (GrammarType, []byte) {
 		}
 		p.r.Move(1)
 		return EndObjectGrammar, p.r.Shift()
-	} else if c == '[' {
+	} else if c == '[' && state != ObjectKeyState {
 		p.state = append(p.state, ArrayState)
 		p.r.Move(1)
 		return StartArrayGrammar, p.r.Shift()
